@@ -20,8 +20,8 @@
      - (fixed by /repo commit 21681e3: lys_parse_in clears LYS_MOD_LATEST_REV of the previous latest revision
        before later failure points; the revert now gives the flag to the newest remaining revision. What is left:
        LYS_MOD_LATEST_SEARCHDIRS is not given back, and the assert of lys_parse_load after a nested failed parse)
-     - lys_set_features flips feature bits in place (already implemented module, or a module that is being
-       implemented) and nothing restores them; the to_compile mark also stays;
+     - (fixed by /repo commit af27b8d: lys_set_features flips feature bits in place and nothing restored them; now
+       _lys_set_implemented remembers them in the unres and the revert writes them back and recompiles)
      - with LY_CTX_EXPLICIT_COMPILE `creating`/`implementing` accumulate over calls, so a failed call also
        removes what earlier successful calls added;
      - LYS_MOD_IMPORTED_REV / LATEST_SEARCHDIRS / LATEST_IMPCLB set on existing modules stay;
@@ -108,26 +108,29 @@ Record state := mkState {
   explicit : bool;             (* LY_CTX_EXPLICIT_COMPILE *)
   creating : list key;         (* ctx->unres.creating *)
   implementing : list key;     (* ctx->unres.implementing *)
+  featsaved : list (key * list bool); (* ctx->unres.feat_mods / feat_bits (since /repo commit af27b8d), oldest first *)
   evs : list event;            (* events of the current operation, oldest first (not part of the C state) *)
   fuel_out : bool;             (* the model ran out of fuel (not part of the C state) *)
   aborted : bool }.            (* an assert() of the C code does not hold (builds with assertions abort there) *)
 
 Definition with_mods (l : list modl) (s : state) : state :=
-  mkState l (explicit s) (creating s) (implementing s) (evs s) (fuel_out s) (aborted s).
+  mkState l (explicit s) (creating s) (implementing s) (featsaved s) (evs s) (fuel_out s) (aborted s).
 Definition with_creating (c : list key) (s : state) : state :=
-  mkState (mods s) (explicit s) c (implementing s) (evs s) (fuel_out s) (aborted s).
+  mkState (mods s) (explicit s) c (implementing s) (featsaved s) (evs s) (fuel_out s) (aborted s).
 Definition with_implementing (c : list key) (s : state) : state :=
-  mkState (mods s) (explicit s) (creating s) c (evs s) (fuel_out s) (aborted s).
+  mkState (mods s) (explicit s) (creating s) c (featsaved s) (evs s) (fuel_out s) (aborted s).
+Definition with_featsaved (c : list (key * list bool)) (s : state) : state :=
+  mkState (mods s) (explicit s) (creating s) (implementing s) c (evs s) (fuel_out s) (aborted s).
 Definition add_ev (e : event) (s : state) : state :=
-  mkState (mods s) (explicit s) (creating s) (implementing s) (evs s ++ [e]) (fuel_out s) (aborted s).
+  mkState (mods s) (explicit s) (creating s) (implementing s) (featsaved s) (evs s ++ [e]) (fuel_out s) (aborted s).
 Definition out_of_fuel (s : state) : state :=
-  mkState (mods s) (explicit s) (creating s) (implementing s) (evs s) true (aborted s).
+  mkState (mods s) (explicit s) (creating s) (implementing s) (featsaved s) (evs s) true (aborted s).
 Definition assert_fails (s : state) : state :=
-  mkState (mods s) (explicit s) (creating s) (implementing s) (evs s) (fuel_out s) true.
+  mkState (mods s) (explicit s) (creating s) (implementing s) (featsaved s) (evs s) (fuel_out s) true.
 
 (* the state without the bookkeeping of the model itself *)
 Definition core (s : state) : state :=
-  mkState (mods s) (explicit s) (creating s) (implementing s) [] false false.
+  mkState (mods s) (explicit s) (creating s) (implementing s) (featsaved s) [] false false.
 
 (* abstract module text: what lys_parse gets or the import callback serves *)
 Record mdesc := mkDesc {
@@ -372,11 +375,16 @@ Fixpoint has_compiled_import_r (fuel : nat) (s : state) (k : key) : state * bool
       end
   end.
 
-(* _lys_set_implemented; false = error *)
-Definition set_implemented (s : state) (k : key) (sel : fsel) : state * bool :=
-  match find_mod k (mods s) with
-  | None => (s, false)
+(* _lys_set_implemented; false = error. With a features array the current feature states of the module are
+   remembered in the global unres first (af27b8d); lys_unres_glob_revert restores them. *)
+Definition set_implemented (s0 : state) (k : key) (sel : fsel) : state * bool :=
+  match find_mod k (mods s0) with
+  | None => (s0, false)
   | Some m =>
+      let s := match sel with
+               | FNull => s0
+               | _ => with_featsaved (featsaved s0 ++ [(k, map f_on (m_feats m))]) s0
+               end in
       if m_impl m then
         match set_features (m_feats m) sel with
         | SfInval => (s, false)
@@ -608,19 +616,31 @@ Definition rm_step (a : state * list (list key)) (k : key) : state * list (list 
             else l1 in
   (with_mods l2 (fst a), rm_from_depsets k (snd a)).
 
-Definition revert (s : state) (dss : list (list key)) : state :=
+(* the remembered feature states of one module are written back *)
+Fixpoint restore_bits (fs : list feat) (bits : list bool) : list feat :=
+  match fs, bits with
+  | f :: fs', b :: bits' => mkFeat (f_name f) (f_deps f) b :: restore_bits fs' bits'
+  | _, _ => fs
+  end.
+
+(* the first loop of lys_unres_glob_revert (af27b8d): the last change first *)
+Definition restore_features (s : state) : state :=
+  fold_left (fun s e => upd_s (fst e) (fun m => set_feats (restore_bits (m_feats m) (snd e)) m) s) (rev (featsaved s)) s.
+
+Definition revert (s0 : state) (dss : list (list key)) : state :=
+  let s := restore_features s0 in
   (* make the implementing modules non-implemented again *)
   let s1 := fold_left (fun s k => upd_s k (fun m => set_tc false (set_comp None (set_impl false m))) s)
                       (implementing s) s in
   (* remove the created modules from the context and from the dep sets *)
   let '(s2, dss2) := fold_left rm_step (creating s1) (s1, dss) in
   (* recompile the previous context with the current to_compile flags; a failure is only logged *)
-  match implementing s2 with
-  | [] => s2
-  | _ => fst (compile_all dss2 s2)
+  match implementing s2, featsaved s2 with
+  | [], [] => s2
+  | _, _ => fst (compile_all dss2 s2)
   end.
 
-Definition erase (s : state) : state := with_implementing [] (with_creating [] s).
+Definition erase (s : state) : state := with_featsaved [] (with_implementing [] (with_creating [] s)).
 
 (* ------------------------------------------------------------------------------------------------ *)
 (* operations                                                                                       *)
@@ -711,7 +731,7 @@ Definition internal_mods : list modl :=
     internal 104 true false [(102, 1); (103, 1)];
     internal 105 false true [] ].
 
-Definition init (expl : bool) : state := mkState internal_mods expl [] [] [] false false.
+Definition init (expl : bool) : state := mkState internal_mods expl [] [] [] [] false false.
 
 Definition run (R : repo) (s : state) (ops : list op) : state := fold_left (fun s o => fst (step R s o)) ops s.
 
@@ -800,17 +820,13 @@ Definition mod_ok (l : list modl) (m : modl) : bool :=
 
 Definition is_nil {A} (l : list A) : bool := match l with [] => true | _ => false end.
 
+(* a module whose compiled schema depends on no feature at all (no feature of its own, none in its imports) *)
+Definition plain (l : list modl) (m : modl) : bool := is_nil (snapshot_all l m).
+
 (* nothing pending: what every state of a context without LY_CTX_EXPLICIT_COMPILE looks like between two calls
    unless one of the defects struck, and a context with explicit compilation right after ly_ctx_compile() *)
 Definition quiescent (s : state) : bool :=
-  nodupb (keys (mods s)) && forallb (mod_ok (mods s)) (mods s) && is_nil (creating s) && is_nil (implementing s).
-
-(* the hypothesis about the failing operation: at the point where it jumps to its cleanup, every module that
-   existed before still has its feature bits *)
-Definition keeps (p : modl -> modl -> bool) (R : repo) (s : state) (o : op) : bool :=
-  forallb (fun m => match find_mod (mkey m) (mods (step_mid R s o)) with
-                    | Some m' => p m m'
-                    | None => false
-                    end) (mods s).
-Definition keeps_features : repo -> state -> op -> bool := keeps (fun m m' => feats_eqb (m_feats m') (m_feats m)).
-
+  nodupb (keys (mods s)) && forallb (mod_ok (mods s)) (mods s) && is_nil (creating s) && is_nil (implementing s) &&
+  is_nil (featsaved s) &&
+  (* the modules that form a dependency set of their own (only internal ones here) do not depend on features *)
+  forallb (fun m => negb (m_single m) || plain (mods s) m) (mods s).
